@@ -56,6 +56,12 @@ struct World {
     if (got != expect) { c.viol(sub, "wrong_value_for_some_assignment", {}, what + " expected table " + tstr(expect) + " got " + tstr(got)); return; }
     auto& slot = canon[{V + 1000 * LAY.id, expect}];
     if (!slot) slot.reset(new M(r)); else if (!(*slot == r) || (*slot != r)) c.viol(sub, "two_diagrams_for_one_function", {}, what + " table " + tstr(expect) + ": operator== is false for two diagrams denoting the same function");
+    else if (!LAY.W) {   // assignment over an object that already holds an EQUAL diagram (possibly built with another default value) must still make it behave as the source in
+      // every later operation: the prefix extension of the target must read like the prefix extension of the source where the prefix does not match (= the default value)
+      M t(*slot); t = r; bool same = t.GetDefaultValue() == r.GetDefaultValue();
+      if (same) { M e1 = t.ExtendWith(SymbolicVarAsgn("1"), (size_t)V), e2 = r.ExtendWith(SymbolicVarAsgn("1"), (size_t)V); for (int x = 0; x < (1 << (V + 1)) && same; x++) { SymbolicVarAsgn a(V + 1, x); if (e1.GetValue(a) != e2.GetValue(a)) same = false; } }
+      if (!same) c.viol(sub, "assignment_over_an_equal_diagram_does_not_take_the_source_over", {}, what + ": after `t = r` (t held an equal diagram with default " + std::to_string(slot->GetDefaultValue()) + ", r has default " + std::to_string(r.GetDefaultValue()) + ") t extends differently from r");
+    }
   }
 };
 static World& W() { static World w; return w; }
